@@ -156,19 +156,30 @@ class Sim:
             sub, fn = KIND_FILE[k]
             tok = {"kind": k, "step": list(step), "hash": chash, "u": {"trainscr": self.U0, "testscr": self.U0, "advanced": u_in - 1,
                                                                      "meta": self.U0 if wf == "pfirst" else u_in - 1}.get(k, 0)}
-            self.tick()                                  # a publish is one atomic filesystem mutation
-            d = os.path.join(outdir, sub)
-            self.in_operator = True                      # (the pipeline's own mkdir/rename are not separate crash points)
-            try:
-                os.makedirs(d, exist_ok=True)
-                tmp = os.path.join(d, "." + fn + ".tmp")
-                with open(tmp, "w") as fh:
+            def write(path):
+                with open(path, "w") as fh:
                     if k == "selected":
                         fh.write("sel-%d-%d-%s" % (step[0], step[1], chash))
                     elif k == "meta":
                         json.dump(dict(tok, n_unobserved_plates=tok["u"]), fh)
                     else:
                         json.dump(tok, fh)
+            # the task finishes: its output exists in the work directory (the script passes -work-dir <job dir>/work), not yet published
+            self.tick()
+            self.in_operator = True
+            try:
+                wd = os.path.join(outdir, "work", "%02x" % (sum(map(ord, k)) % 251), chash[:8])
+                os.makedirs(wd, exist_ok=True)
+                write(os.path.join(wd, fn))
+            finally:
+                self.in_operator = False
+            self.tick()                                  # a publish is one atomic filesystem mutation
+            d = os.path.join(outdir, sub)
+            self.in_operator = True                      # (the pipeline's own mkdir/rename are not separate crash points)
+            try:
+                os.makedirs(d, exist_ok=True)
+                tmp = os.path.join(d, "." + fn + ".tmp")
+                write(tmp)
                 os.replace(tmp, os.path.join(d, fn))
             finally:
                 self.in_operator = False
@@ -212,6 +223,8 @@ class Sim:
         def w_unlink(path, *a, **k):
             if sim.in_operator:
                 return real["unlink"](path, *a, **k)
+            if os.sep + "work" + os.sep in os.fspath(path):
+                return real["unlink"](path, *a, **k)          # (scratch of the pipeline: removed with the job directory, not a step of the model)
             sim.tick()
             r = real["unlink"](path, *a, **k)
             kind = FILE_KIND.get(os.path.basename(os.fspath(path)))
@@ -221,6 +234,8 @@ class Sim:
 
         def w_rmdir(path, *a, **k):
             if sim.in_operator:
+                return real["rmdir"](path, *a, **k)
+            if os.sep + "work" in os.fspath(path):
                 return real["rmdir"](path, *a, **k)
             sim.tick()
             r = real["rmdir"](path, *a, **k)
@@ -393,8 +408,9 @@ def run(ctx):
             ctx.violation("design-level: liveness EventuallyFinished violated", {"kind": "tlc", "tlc": r.violation_text[:4000]})
     ctx.exhaustive = True
     # (C) the real script under every crash point
-    confs = [("retrospective", 1, 3), ("retrospective", 3, 4), ("prospective", 1, 3), ("prospective", 3, 4)] if ctx.quick else \
-        [(m, b, 4) for m in ("retrospective", "prospective") for b in (1, 2, 3, 4)] + [("retrospective", 3, 6), ("retrospective", 2, 5)]
+    confs = [("retrospective", 1, 3), ("retrospective", 3, 4), ("prospective", 1, 3), ("prospective", 3, 4), ("retrospective", 1, 12)] if ctx.quick else \
+        [(m, b, 4) for m in ("retrospective", "prospective") for b in (1, 2, 3, 4)] + [("retrospective", 3, 6), ("retrospective", 2, 5), ("retrospective", 1, 13),
+                                                                                 ("retrospective", 2, 23)]
     total_sched = 0
     for mode, B, U0 in confs:
         max_iter = 2
@@ -405,6 +421,8 @@ def run(ctx):
             continue
         scheds = [[m] for m in range(M + 1)]
         pairs = [[a, b] for a in range(M + 1) for b in range(0, M + 1)]
+        if U0 > 10:          # more than ten iterations (iter_10 sorts before iter_2 as a string): sampled crash points only
+            scheds, pairs = rnd.sample(scheds, 25 if ctx.quick else 120), rnd.sample(pairs, 10 if ctx.quick else 200)
         if ctx.quick:
             scheds += rnd.sample(pairs, min(len(pairs), 60))
         else:
